@@ -2,7 +2,10 @@ package main
 
 import (
 	"fmt"
+	"go/constant"
 	"go/token"
+	"go/types"
+	"regexp"
 	"sort"
 	"strings"
 
@@ -11,7 +14,7 @@ import (
 
 func init() {
 	props["C10"] = &propDef{run: runC10, explanation: "Partial (thin): the list algebra itself (insert-or-replace keeping order, set union/difference, RFC 6902 semantics, id uniqueness) is value-level and NOT decided. Decided statically: (T1) the action tables agree — keys of patch.actionConfig = case constants of patchvalidator.Validate = case constants of the composer's dispatch = the eight patch.Action constants, each composer case calls its own handler and anything else is an error; (E1) handler write-sets — the key/service/also-known-as handlers write exactly their own member of the working document, replace builds a fresh document with exactly the two members taken from the replace document's publicKeys/services, ietf-json-patch returns the library output re-parsed; (P1) ApplyPatches is a left fold: deep copy of the document parameter, then one loop over the patches parameter in index order threading the result, the final result returned; (X2) sibling decision skeletons — for every append/update site in a handler's loop, which collection is iterated (document vs patch value), which collection the membership set is built from, the polarity of the membership test and what is appended; the three remove-handlers, the two keyed add-handlers and add-also-known-as must each match the documented skeleton (this catches an inverted keep condition, a dropped replace branch, a wrong source collection)."}
-	props["C14"] = &propDef{run: runC14, explanation: "Partial (thin): document→patches→document and bytes round trips are value-level and NOT decided. Decided statically: (X1) each of the eight patch constructors stores ActionKey = its action and exactly one value under actionConfig[action]; (G1) FromBytes succeeds only across GetAction and GetValue of the decoded patch; GetValue looks up actionConfig[own action] and requires that member; GetAction admits only string-typed actions present in actionConfig; (T1) PatchesFromDocument maps publicKey / service / alsoKnownAs to their constructors and every other member to one combined ietf-json-patch 'add /<name>', visits members in sorted order, and succeeds only for documents without an id; (P1) Bytes() serialises the receiver itself."}
+	props["C14"] = &propDef{run: runC14, explanation: "Partial (thin): document→patches→document and bytes round trips are value-level and NOT decided. Decided statically: (X1) each of the eight patch constructors stores ActionKey = its action and exactly one value under actionConfig[action]; (G1) FromBytes succeeds only across GetAction and GetValue of the decoded patch; GetValue looks up actionConfig[own action] and requires that member; GetAction admits only string-typed actions present in actionConfig; (T1) PatchesFromDocument maps publicKey / service / alsoKnownAs to their constructors and every other member to one combined ietf-json-patch 'add /<name>', visits members in sorted order, and succeeds only for documents without an id; (P1) Bytes() serialises the receiver itself; (J1) in the functions reachable from PatchesFromDocument no list separator is written under a loop-index test while the elements are written conditionally (hand-assembled JSON)."}
 }
 
 func (c *Ctx) actionConsts() map[string]string {
@@ -364,7 +367,174 @@ func runC14(c *Ctx) {
 	// (insert-or-replace by id within the handler's own list) are part of this check
 	c.composerSkeletons("C14.X2", c.composerHandlers())
 	c.Min("C14.X2", 12)
+	// ---- J1 hand-assembled JSON lists (PatchesFromDocument formats RFC 6902 operations from a text template):
+	// a separator written under a test of the loop index is only right when every iteration writes an element
+	if pfd := c.Fn("patch", "PatchesFromDocument"); pfd != nil {
+		fs := c.reachableModuleFuncs([]*ssa.Function{pfd})
+		nLoops, bad := 0, 0
+		for _, f := range fs {
+			n, sites := c.indexGuardedSeparators(f)
+			nLoops += n
+			for _, in := range sites {
+				bad++
+				c.Check("C14.J1", short(f.String())+": separator written by loop index", false, instrPos(in), "a list separator is written under a test of the loop index while the element itself is written only on some iterations (filtered / switched): the first written element can be preceded by a separator, or two elements left unseparated — the assembled JSON does not parse")
+			}
+		}
+		c.Check("C14.J1", "PatchesFromDocument:list-separators", bad == 0 && nLoops > 0, pfd.Pos(), fmt.Sprintf("%d functions reachable from PatchesFromDocument, %d loops inspected: no separator constant is written under a loop-index test in a loop that writes its elements conditionally", len(fs), nLoops))
+	} else {
+		c.Unresolved("C14.J1", "patch.PatchesFromDocument")
+	}
+	c.Min("C14.J1", 1)
 	c.Assume("round-trip equalities are value-level and not decided")
+}
+
+// indexGuardedSeparators returns the number of loops of f and the writes of a "," constant that are guarded by a
+// comparison of the loop's index (a variable stepped by a constant on every back edge) while (a) the guarded
+// test itself does not run on every iteration, or (b) some other write to the same sink in the loop does not.
+func (c *Ctx) indexGuardedSeparators(f *ssa.Function) (int, []ssa.Instruction) {
+	var out []ssa.Instruction
+	loops := naturalLoops(f)
+	isSep := func(v ssa.Value) bool {
+		k, ok := v.(*ssa.Const)
+		if !ok || k.Value == nil {
+			return false
+		}
+		switch k.Value.Kind() {
+		case constant.String:
+			return strings.TrimSpace(constant.StringVal(k.Value)) == ","
+		case constant.Int:
+			x, _ := constant.Int64Val(k.Value)
+			return x == ','
+		}
+		return false
+	}
+	for _, l := range loops {
+		// strict index variables of this loop
+		idx := map[ssa.Value]bool{}
+		for _, in := range l.header.Instrs {
+			phi, ok := in.(*ssa.Phi)
+			if !ok {
+				continue
+			}
+			strict, inner := true, 0
+			for i, e := range phi.Edges {
+				if !l.blocks[l.header.Preds[i]] {
+					continue
+				}
+				inner++
+				bo, isB := e.(*ssa.BinOp)
+				if !isB || (bo.Op != token.ADD && bo.Op != token.SUB) || bo.X != ssa.Value(phi) {
+					strict = false
+					continue
+				}
+				if _, isK := bo.Y.(*ssa.Const); !isK {
+					strict = false
+				}
+			}
+			if strict && inner > 0 {
+				idx[phi] = true
+				for _, e := range phi.Edges {
+					if bo, isB := e.(*ssa.BinOp); isB {
+						idx[bo] = true
+					}
+				}
+			}
+		}
+		if len(idx) == 0 {
+			continue
+		}
+		everyIteration := func(b *ssa.BasicBlock) bool {
+			for _, bk := range l.backs {
+				if !b.Dominates(bk) {
+					return false
+				}
+			}
+			return true
+		}
+		// sink of a write: receiver / first argument of a Write*, Fprint* call, or the string being extended
+		sinkOf := func(in ssa.Instruction) (ssa.Value, []ssa.Value) {
+			switch x := in.(type) {
+			case *ssa.Call:
+				name := ""
+				if x.Call.IsInvoke() {
+					name = x.Call.Method.Name()
+				} else if g := x.Call.StaticCallee(); g != nil {
+					name = g.Name()
+				}
+				if !(strings.HasPrefix(name, "Write") || strings.HasPrefix(name, "Fprint")) {
+					return nil, nil
+				}
+				args := x.Call.Args
+				if x.Call.IsInvoke() {
+					return x.Call.Value, args
+				}
+				if len(args) == 0 {
+					return nil, nil
+				}
+				return args[0], args[1:]
+			}
+			return nil, nil
+		}
+		for b := range l.blocks {
+			iff, ok := b.Instrs[len(b.Instrs)-1].(*ssa.If)
+			if !ok {
+				continue
+			}
+			bo, ok := iff.Cond.(*ssa.BinOp)
+			if !ok || !isCmp(bo.Op) {
+				continue
+			}
+			_, kx := bo.X.(*ssa.Const)
+			_, ky := bo.Y.(*ssa.Const)
+			if !((idx[bo.X] && ky) || (idx[bo.Y] && kx)) {
+				continue
+			}
+			for _, succ := range b.Succs {
+				if len(succ.Preds) != 1 || !l.blocks[succ] {
+					continue
+				}
+				for rb := range l.blocks {
+					if !succ.Dominates(rb) {
+						continue
+					}
+					for _, in := range rb.Instrs {
+						sink, args := sinkOf(in)
+						if sink == nil {
+							continue
+						}
+						sep := false
+						for _, a := range args {
+							if isSep(a) {
+								sep = true
+							}
+						}
+						if !sep {
+							continue
+						}
+						// (a) the index test is itself conditional within the iteration
+						if !everyIteration(b) {
+							out = append(out, in)
+							continue
+						}
+						// (b) another write to the same sink in this loop is conditional
+						sp := c.Path(sink, nil)
+						for ob := range l.blocks {
+							if succ.Dominates(ob) || everyIteration(ob) {
+								continue
+							}
+							for _, oin := range ob.Instrs {
+								if os, _ := sinkOf(oin); os != nil && c.Path(os, nil) == sp {
+									out = append(out, in)
+								}
+							}
+						}
+					}
+				}
+			}
+		}
+	}
+	sort.Slice(out, func(i, j int) bool { return out[i].Pos() < out[j].Pos() })
+	return len(loops), out
 }
 
 // ascendingFromZero: v is (a load of) slice[i] where i runs 0,1,2,… (range loop or for i := 0; …; i++).
@@ -435,9 +605,9 @@ func (c *Ctx) composerSkeletons(rule string, handlers map[string]*ssa.Function) 
 			d, e := sliceHas(sl, isParam(h, 0)), sliceHas(sl, isParam(h, 1))
 			switch {
 			case d && e:
-				return "doc+entry"
+				return "doc" + c.docMembers(sl) + "+entry"
 			case d:
-				return "doc"
+				return "doc" + c.docMembers(sl)
 			case e:
 				return "entry"
 			}
@@ -483,12 +653,28 @@ func (c *Ctx) composerSkeletons(rule string, handlers map[string]*ssa.Function) 
 						if u, isU := cond.(*ssa.UnOp); isU && u.Op == token.NOT {
 							cond, neg = u.X, true
 						}
-						ex, isEx := cond.(*ssa.Extract)
-						if !isEx {
-							continue
+						// the membership test: ok of a comma-ok lookup, the value of a bool-valued set m[k], or a
+						// membership function (slices.Contains and the module's own) over a list
+						var set ssa.Value
+						switch y := cond.(type) {
+						case *ssa.Extract:
+							if lk, isLk := y.Tuple.(*ssa.Lookup); isLk && y.Index == 1 {
+								set = lk.X
+							}
+						case *ssa.Lookup:
+							if mt, isM := y.X.Type().Underlying().(*types.Map); isM && !y.CommaOk {
+								if bt, isB := mt.Elem().Underlying().(*types.Basic); isB && bt.Kind() == types.Bool {
+									set = y.X
+								}
+							}
+						case *ssa.Call:
+							if g := y.Call.StaticCallee(); g != nil && len(y.Call.Args) == 2 && boolResult(g) {
+								if isM, _ := c.isMembershipFn(g); isM {
+									set = y.Call.Args[0]
+								}
+							}
 						}
-						lk, isLk := ex.Tuple.(*ssa.Lookup)
-						if !isLk {
+						if set == nil {
 							continue
 						}
 						taken := id.Succs[0] == x
@@ -498,7 +684,7 @@ func (c *Ctx) composerSkeletons(rule string, handlers map[string]*ssa.Function) 
 						} else {
 							pol = "if-not-member"
 						}
-						from = classify(lk.X)
+						from = classify(set)
 						break
 					}
 					out = append(out, fmt.Sprintf("loop over %s: %s %s of set built from %s", loopOver, kind, pol, from))
@@ -508,13 +694,25 @@ func (c *Ctx) composerSkeletons(rule string, handlers map[string]*ssa.Function) 
 		sort.Strings(out)
 		return out
 	}
-	wantSk := map[string][]string{
-		"remove-public-keys":   {"loop over doc: append(doc-element) if-not-member of set built from entry"},
-		"remove-services":      {"loop over doc: append(doc-element) if-not-member of set built from entry"},
-		"remove-also-known-as": {"loop over doc: append(doc-element) if-not-member of set built from entry"},
-		"add-public-keys":      {"loop over entry: append(entry-element) if-not-member of set built from doc", "loop over entry: update-in-place(entry-element) if-member of set built from doc"},
-		"add-services":         {"loop over entry: append(entry-element) if-not-member of set built from doc", "loop over entry: update-in-place(entry-element) if-member of set built from doc"},
-		"add-also-known-as":    {"loop over entry: append(entry-element) if-not-member of set built from doc"},
+	// doc{M}: the value is derived from the document parameter through exactly the member(s) M
+	member := map[string]string{"public-keys": "{publicKey}", "services": "{service}", "also-known-as": "{alsoKnownAs}"}
+	wantSk := map[string][]string{}
+	for _, a := range []string{"remove-public-keys", "remove-services", "remove-also-known-as"} {
+		m := member[strings.TrimPrefix(a, "remove-")]
+		wantSk[a] = []string{"loop over doc" + m + ": append(doc" + m + "-element) if-not-member of set built from entry"}
+	}
+	for _, a := range []string{"add-public-keys", "add-services"} {
+		m := member[strings.TrimPrefix(a, "add-")]
+		wantSk[a] = []string{"loop over entry: append(entry-element) if-not-member of set built from doc" + m, "loop over entry: update-in-place(entry-element) if-member of set built from doc" + m}
+	}
+	wantSk["add-also-known-as"] = []string{"loop over entry: append(entry-element) if-not-member of set built from doc{alsoKnownAs}"}
+	memberRe := regexp.MustCompile(`\{[A-Za-z,]*\}`)
+	anon := func(sk []string) []string {
+		var out []string
+		for _, x := range sk {
+			out = append(out, memberRe.ReplaceAllString(x, "{own}"))
+		}
+		return out
 	}
 	var as []string
 	for a := range wantSk {
@@ -539,6 +737,21 @@ func (c *Ctx) composerSkeletons(rule string, handlers map[string]*ssa.Function) 
 							okInit = true
 						}
 					}
+					// or the loop extends the existing list itself: the value the appended-to list has on loop entry
+					// comes from the document and not from the patch value
+					if bi, isB := cl.Call.Value.(*ssa.Builtin); isB && bi.Name() == "append" {
+						if phi, isPhi := cl.Call.Args[0].(*ssa.Phi); isPhi {
+							for i, e := range phi.Edges {
+								if _, isK := e.(*ssa.Const); isK || e == ssa.Value(cl) || !phi.Block().Preds[i].Dominates(phi.Block()) {
+									continue
+								}
+								sl := backSlice(e)
+								if sliceHas(sl, isParam(h, 0)) && !sliceHas(sl, isParam(h, 1)) {
+									okInit = true
+								}
+							}
+						}
+					}
 				}
 			})
 			c.Check(rule, a+":keeps-existing-order", okInit, h.Pos(), "the result list starts as a copy of the existing entries in their order")
@@ -553,7 +766,7 @@ func (c *Ctx) composerSkeletons(rule string, handlers map[string]*ssa.Function) 
 				ok = false
 				continue
 			}
-			sk := skeleton(handlers[a])
+			sk := anon(skeleton(handlers[a]))
 			if i == 0 {
 				first = sk
 			} else if !eqStrs(sk, first) {
@@ -589,4 +802,69 @@ func (c *Ctx) composerSkeletons(rule string, handlers map[string]*ssa.Function) 
 		})
 		c.Check(rule, uf+":replace-by-id", ok, f.Pos(), uf+" overwrites exactly the slots whose id equals the new element's id")
 	}
+}
+
+func boolResult(g *ssa.Function) bool {
+	r := g.Signature.Results()
+	if r.Len() != 1 {
+		return false
+	}
+	b, ok := r.At(0).Type().Underlying().(*types.Basic)
+	return ok && b.Kind() == types.Bool
+}
+
+// docMembers names the members of the document that a value is read through: accessor methods of the document
+// types (PublicKeys, Services, AlsoKnownAs) and constant-key lookups, followed into module helper functions
+// that receive the document (bounded depth). Result "{a,b}" (sorted), "" when none is identified.
+func (c *Ctx) docMembers(sl map[ssa.Value]bool) string {
+	norm := map[string]string{"PublicKeys": "publicKey", "Services": "service", "AlsoKnownAs": "alsoKnownAs", "publicKey": "publicKey", "service": "service", "alsoKnownAs": "alsoKnownAs"}
+	set := map[string]bool{}
+	seenF := map[*ssa.Function]bool{}
+	var scanInstr func(in ssa.Instruction, depth int)
+	var scanFn func(g *ssa.Function, depth int)
+	scanInstr = func(in ssa.Instruction, depth int) {
+		switch x := in.(type) {
+		case *ssa.Call:
+			g := x.Call.StaticCallee()
+			if g == nil {
+				return
+			}
+			if g.Pkg != nil && g.Pkg.Pkg.Path() == modPkg+"document" && g.Signature.Recv() != nil {
+				if m, ok := norm[g.Name()]; ok {
+					set[m] = true
+				}
+				return
+			}
+			if inModule(g) && depth > 0 {
+				scanFn(g, depth-1)
+			}
+		case *ssa.Lookup:
+			if k, ok := x.Index.(*ssa.Const); ok && k.Value != nil && k.Value.Kind() == constant.String {
+				if m, ok2 := norm[constant.StringVal(k.Value)]; ok2 && typeShort(x.X.Type()) == "document.Document" {
+					set[m] = true
+				}
+			}
+		}
+	}
+	scanFn = func(g *ssa.Function, depth int) {
+		if seenF[g] || g.Blocks == nil {
+			return
+		}
+		seenF[g] = true
+		forEachInstr(g, func(in ssa.Instruction) { scanInstr(in, depth) })
+	}
+	for v := range sl {
+		if in, ok := v.(ssa.Instruction); ok {
+			scanInstr(in, 2)
+		}
+	}
+	var ms []string
+	for m := range set {
+		ms = append(ms, m)
+	}
+	sort.Strings(ms)
+	if len(ms) == 0 {
+		return ""
+	}
+	return "{" + strings.Join(ms, ",") + "}"
 }
